@@ -246,8 +246,8 @@ def rand_rules(rng, lf, spec):
     heterogeneity parameters and bin probabilities; returns the list of rules applied"""
     rules = []
     edges = tree_edges(spec["tree"])
-    special = {"mprobs", "length", "bprobs", "rate", "rate_shape", "psubs", "dpsubs"}
-    names = [p for p in lf.get_param_names() if p not in special]
+    special = {"mprobs", "length", "bprobs", "rate", "psubs", "dpsubs"}
+    names = [p for p in lf.get_param_names() if p not in special and not p.endswith("_shape")]
     for p in names:
         hi = 3.0 if p == "omega" else 8.0
         rules.append(dict(par_name=p, init=round(math.exp(rng.uniform(math.log(0.08), math.log(hi))), 6)))
@@ -258,13 +258,9 @@ def rand_rules(rng, lf, spec):
         k = spec["bins"]
         w = [rng.uniform(0.3, 1.0) for _ in range(k)]
         rules.append(dict(par_name="bprobs", init=[x / sum(w) for x in w]))
-        if spec["model_kw"].get("distribution") == "gamma":
-            rules.append(dict(par_name="rate_shape", init=round(rng.uniform(0.2, 4.0), 5)))
-        else:
-            # free distribution: ordered rates, one per bin
-            rs = sorted(round(rng.uniform(0.05, 3.0), 5) for _ in range(k))
-            for b, r in enumerate(rs):
-                rules.append(dict(par_name="rate", bin=f"bin{b}", init=r))
+    for p in lf.get_param_names():
+        if p.endswith("_shape"):
+            rules.append(dict(par_name=p, init=round(rng.uniform(0.2, 4.0), 5)))
     return rules
 
 
@@ -293,8 +289,18 @@ def build_lf(spec, rng=None):
     if spec.get("mprobs"):
         lf.set_motif_probs(spec["mprobs"])
     if not spec.get("rules") and rng is not None:
-        spec["rules"] = rand_rules(rng, lf, spec)
-    apply_rules(lf, spec.get("rules", []))
+        # candidate rules; those the model refuses (e.g. a parameter derived from a bin
+        # distribution is not settable) are dropped from the description
+        kept = []
+        for r in rand_rules(rng, lf, spec):
+            try:
+                apply_rules(lf, [r])
+                kept.append(r)
+            except (ValueError, KeyError, AssertionError):
+                pass
+        spec["rules"] = kept
+    else:
+        apply_rules(lf, spec.get("rules", []))
     return lf
 
 
